@@ -103,8 +103,12 @@ def r2(ctx, cfg, R="C06.R2"):
         (ib, it), (ab, at) = ins[0], app[0]
         ia, aa = P.call_args(f, it, ib), P.call_args(f, at, ab)
         ok = _self_field(ia[0], "local_state") and is_param(ia[1], "key")
+        # the overlay entry is the delta of this very operation: Delta::Set{value} / Delta::Delete{} (the helper Op::to_delta
+        # is always spliced - vlib/inline.py ALWAYS_INLINE - so a hand-inlined literal is the same form)
         d = peel(ia[2])
-        ok = ok and d[0] == "call" and d[1] == T + "Op::to_delta" and _op_agg(d[2][0], variant)
+        ok = ok and d[0] == "agg" and d[1] == T + "Delta::" + variant
+        if ok and variant == "Set":
+            ok = is_param(dict(d[2]).get("value", ("?",)), "value")
         ctx.ob(R, ST + name, "overlay-records-%s(key)" % variant, ok,
                "local_state.insert(%s, %s)" % (fmt(ia[1]), fmt(ia[2])[:100]), fn=f, line=it["line"],
                sample="local_state.insert(key, Op::%s{..}.to_delta())" % variant)
@@ -119,22 +123,6 @@ def r2(ctx, cfg, R="C06.R2"):
         ok = all(cf.must_pass(ib, r) and cf.must_pass(ab, r) for r in rets)
         ctx.ob(R, ST + name, "both-on-every-path", ok, "insert/append are not on every path of %s" % name, fn=f,
                sample="insert and append dominate return")
-    # Op::to_delta table
-    f = ctx.need_fn(R, T + "Op::to_delta")
-    if f is not None:
-        names, table, seen = decision_table(
-            f, {"op": ["Set", "Delete"]},
-            lambda fn, bid, t: "op" if is_param(P.place(fn, t["discr_of"], (bid, "t")), "self") else None,
-            lambda fn, site, item: _ret_event(P, fn, site, item))
-        exp = {("Set",): "Delta::Set", ("Delete",): "Delta::Delete"}
-        for k, want in exp.items():
-            seqs = table.get(k, set())
-            got = sorted({e[1] for s in seqs for e in s if isinstance(e, tuple) and e[0] == "ret"})
-            ok = len(got) == 1 and got[0].startswith("agg:" + T + want)
-            if ok and k == ("Set",):
-                ok = "value<-self.value" in got[0]
-            ctx.ob(R, T + "Op::to_delta", "to_delta(%s)" % k[0], ok and seen["op"] >= 1, "to_delta(%s) yields %s" % (k[0], got), fn=f,
-                   sample=str(got))
     # RepLog::append pushes the op
     f = ctx.need_fn(R, T + "RepLog::append")
     if f is not None:
@@ -294,45 +282,26 @@ def r5(ctx, cfg, R="C06.R5"):
     rb, rt = rc[0]
     a = P.call_args(f, rt, rb)
     b = peel(a[1])
-    ok = _self_field(a[0], "local_state") and b[0] == "call" and b[1] == T + "range_bounds" and is_param(b[2][0], "start") and is_param(b[2][1], "end")
+    ok = _self_field(a[0], "local_state") and b[0] == "agg" and b[1] == "tuple" and len(b[2]) == 2
     ctx.ob(R, key, "range(local_state, range_bounds(start,end))", ok, "BTreeMap::range(%s, %s)" % (fmt(a[0]), fmt(a[1])[:100]), fn=f,
-           line=rt["line"], sample="local_state.range(range_bounds(start, end))")
-    # range_bounds shape (form-agnostic: `start.map_or(Unbounded, |x| Included(x.to_vec()))` or a `match` on the Option)
-    k2 = T + "range_bounds"
-    g = ctx.need_fn(R, k2)
-    if g is not None:
-        ret = peel(P.ret(g))
-        ok = ret[0] == "agg" and ret[1] == "tuple" and len(ret[2]) == 2
-        ctx.ob(R, k2, "bounds=(Included(start)|Unbounded, Excluded(end)|Unbounded)", ok, "range_bounds returns %s" % fmt(ret)[:200], fn=g,
-               sample="(start.map_or(Unbounded, Included), end.map_or(Unbounded, Excluded))")
-        if ok:
-            for (pname, want), comp in zip((("start", "Included"), ("end", "Excluded")), (ret[2][0][1], ret[2][1][1])):
-                cases = []
-                for o in alts(peel(comp)):
-                    o = peel(o)
-                    if o[0] == "call" and o[1] in ("std::option::Option::map_or", "std::option::Option::map_or_else") and is_param(o[2][0], pname):
-                        cases.append(("none", peel(o[2][1])))
-                        c = peel(o[2][2])
-                        h = F.fn(c[1]) if c[0] == "closure" else None
-                        if h is not None:
-                            for r in alts(peel(P.ret(h))):
-                                cases.append(("some", peel(r)))
-                        else:
-                            cases.append(("some", ("unknown", "closure")))
-                    else:
-                        cases.append(("?", o))
-                kinds = set()
-                for tag, o in cases:
-                    if o[0] == "agg" and o[1].endswith("Bound::Unbounded"):
-                        kinds.add("Unbounded")
-                    elif o[0] == "agg" and o[1].startswith("std::ops::Bound::") and o[2]:
-                        pay = peel(o[2][0][1])
-                        from_param = pay[0] in ("cparam",) or (pay[0] == "some" and is_param(pay[1], pname)) or (pay[0] == "bound" and is_param(pay[2], pname))
-                        kinds.add(o[1].rsplit("::", 1)[1] if from_param and tag in ("some", "?") else "other:" + fmt(o)[:60])
-                    else:
-                        kinds.add("other:" + fmt(o)[:60])
-                ctx.ob(R, k2, "bound-constructor-%s" % want, kinds == {"Unbounded", want}, "%s bound of the overlay range is %s" % (pname, sorted(kinds)), fn=g,
-                       sample="%s: Unbounded | Bound::%s(%s.to_vec())" % (pname, want, pname))
+           line=rt["line"], sample="local_state.range((lower, upper))")
+    # the bounds handed to BTreeMap::range: (Included(start) | Unbounded, Excluded(end) | Unbounded) - read at the call
+    # (the helper range_bounds is always spliced; `map_or` and `match` forms have the same alternatives)
+    if ok:
+        for (pname, want), comp in zip((("start", "Included"), ("end", "Excluded")), (b[2][0][1], b[2][1][1])):
+            kinds = set()
+            for o in alts(peel(comp)):
+                o = peel(o)
+                if o[0] == "agg" and o[1].endswith("Bound::Unbounded"):
+                    kinds.add("Unbounded")
+                elif o[0] == "agg" and o[1].startswith("std::ops::Bound::") and o[2]:
+                    pay = peel(o[2][0][1])
+                    from_param = (pay[0] == "some" and is_param(pay[1], pname)) or pay[0] == "cparam" or (pay[0] == "bound" and is_param(pay[2], pname))
+                    kinds.add(o[1].rsplit("::", 1)[1] if from_param else "other:" + fmt(o)[:60])
+                else:
+                    kinds.add("other:" + fmt(o)[:60])
+            ctx.ob(R, key, "bound-constructor-%s" % want, kinds == {"Unbounded", want}, "%s bound of the overlay range is %s" % (pname, sorted(kinds)), fn=f,
+                   sample="%s: Unbounded | Bound::%s(%s.to_vec())" % (pname, want, pname))
     # the guard: a comparison start > end between the Included / Excluded payloads
     guards = []
     for bid in f.order:
@@ -342,8 +311,10 @@ def r5(ctx, cfg, R="C06.R5"):
             if pred == "lt" and len(args) == 2:
                 lo, hi = args  # lo < hi  (with polarity pol)
                 def is_bound(o, v, which):
-                    return contains(o, lambda x: x[0] == "variant" and x[2] == v) and contains(
-                        o, lambda x: x[0] == "call" and x[1].endswith("RangeBounds::%s_bound" % which))
+                    # the payload of the Included(start) / Excluded(end) bound: the caller's start / end key
+                    o = peel(o)
+                    return (o[0] == "some" and is_param(o[1], which)) or \
+                        (contains(o, lambda x: x[0] == "variant" and x[2] == v) and contains(o, lambda x: x[0] == "param" and x[2] == which))
                 # start > end  ≡  end < start
                 if is_bound(lo, "Excluded", "end") and is_bound(hi, "Included", "start"):
                     guards.append((bid, t, pol))
